@@ -9,7 +9,7 @@
 (***************************************************************************)
 EXTENDS AutoAlloc, Json, IOUtils
 
-VARIABLES l, viol, Q, now, cfg, lastAttempt, startedEv, finishedEv, connEver, lostRunning, resumedOver, alive
+VARIABLES l, viol, Q, now, cfg, lastAttempt, startedEv, finishedEv, connEver, lostRunning, resumedOver, knownRes, alive
 
 Rec == ndJsonDeserialize(IOEnv.TRACE)
 DelaysVal == <<0, 1, 2>>
@@ -37,11 +37,15 @@ DemandAllOf(e, q) ==
   LET S == {d \in SSet(e.demand_all) : d.q = q} IN
   IF S = {} THEN [sn |-> 0, mn_allocs |-> 0, mn_per |-> 0, q |-> q] ELSE CHOOSE d \in S : TRUE
 HasDemand(d) == d.sn > 0 \/ d.mn_allocs > 0
-\* can some waiting task run on a worker of queue q ?  tasks = <<small, big, long, multi-node>>
+\* can some waiting task run on a worker of queue q ?  tasks = <<small, big, long, multi-node, gpu>>
+\* What the workers of a queue look like is known from the first worker that connected from one of its allocations
+\* (knownRes; the real workers have 2 cpus and nothing else); before that it is what the queue's command line says, where
+\* an unmentioned resource may be there in any amount.
 SomeTaskFits(e, q) ==
   \/ e.tasks[1] > 0
-  \/ e.tasks[2] > 0 /\ ~(\E c \in SSet(cfg) : c.id = q /\ c.has_descriptor)
+  \/ e.tasks[2] > 0 /\ ~(\E c \in SSet(cfg) : c.id = q /\ c.has_descriptor) /\ q \notin knownRes
   \/ e.tasks[4] > 0
+  \/ e.tasks[5] > 0 /\ q \notin knownRes
 SortedQueued(q) == SetToSeq(QueuedOf(q))
 
 CountEv(e, k, a) == Cardinality({i \in DOMAIN e.ev : e.ev[i].k = k /\ e.ev[i].a = a})
@@ -117,7 +121,7 @@ V(n, e) == [p |-> n, run |-> e.run, i |-> e.i, a |-> e.a]
 
 TraceInit ==
   /\ l = 1 /\ viol = {} /\ Q = <<>> /\ now = 0 /\ cfg = <<>> /\ lastAttempt = <<>> /\ startedEv = <<>> /\ finishedEv = <<>>
-  /\ connEver = <<>> /\ lostRunning = <<>> /\ resumedOver = <<>> /\ alive = FALSE
+  /\ connEver = <<>> /\ lostRunning = <<>> /\ resumedOver = <<>> /\ knownRes = {} /\ alive = FALSE
 
 Bump(f, S) == [x \in DOMAIN f \cup S |-> (IF x \in DOMAIN f THEN f[x] ELSE 0) + (IF x \in S THEN 1 ELSE 0)]
 AddTo(f, k, v) == [x \in DOMAIN f \cup {k} |-> (IF x \in DOMAIN f THEN f[x] ELSE {}) \cup (IF x = k THEN {v} ELSE {})]
@@ -128,12 +132,12 @@ TraceNext ==
   /\ LET e == Rec[l] IN
      IF e.a = "Reset" THEN
         /\ alive' = TRUE /\ now' = 0 /\ cfg' = e.args.queues /\ lastAttempt' = <<>> /\ startedEv' = <<>> /\ finishedEv' = <<>>
-        /\ connEver' = <<>> /\ lostRunning' = <<>> /\ resumedOver' = <<>> /\ viol' = viol
+        /\ connEver' = <<>> /\ lostRunning' = <<>> /\ resumedOver' = <<>> /\ knownRes' = {} /\ viol' = viol
         /\ Q' = QOf(e.st, <<>>)
-     ELSE IF ~alive THEN UNCHANGED <<viol, Q, now, cfg, lastAttempt, startedEv, finishedEv, connEver, lostRunning, resumedOver, alive>>
+     ELSE IF ~alive THEN UNCHANGED <<viol, Q, now, cfg, lastAttempt, startedEv, finishedEv, connEver, lostRunning, resumedOver, knownRes, alive>>
      ELSE IF e.pan = 1 THEN
         /\ alive' = FALSE /\ viol' = viol \cup {V("C17_NoPanic", e)}
-        /\ UNCHANGED <<Q, now, cfg, lastAttempt, startedEv, finishedEv, connEver, lostRunning, resumedOver>>
+        /\ UNCHANGED <<Q, now, cfg, lastAttempt, startedEv, finishedEv, connEver, lostRunning, resumedOver, knownRes>>
      ELSE
         /\ alive' = alive /\ cfg' = cfg
         /\ now' = e.now
@@ -144,6 +148,8 @@ TraceNext ==
         /\ finishedEv' = Bump(finishedEv, {e.ev[i].a : i \in {i \in DOMAIN e.ev : e.ev[i].k = "AllocationFinished"}})
         /\ connEver' = IF e.a = "WorkerConnected" /\ e.args.known /\ e.args.alloc \in AllAllocs(Q) /\ Rank(AllocOf(Q, e.args.alloc).st) < 2
                        THEN AddTo(connEver, e.args.alloc, e.args.w) ELSE connEver
+        /\ knownRes' = IF e.a = "WorkerConnected" /\ e.args.known /\ e.args.alloc \in AllAllocs(Q)
+                       THEN knownRes \cup {QueueOfAlloc(Q, e.args.alloc)} ELSE knownRes
         /\ lostRunning' = IF e.a = "WorkerLost" /\ e.args.known /\ e.args.alloc \in AllAllocs(Q) /\ AllocOf(Q, e.args.alloc).st = "Running"
                           THEN AddTo(lostRunning, e.args.alloc, e.args.w) ELSE lostRunning
         /\ resumedOver' = [q \in DOMAIN Q' |->
@@ -152,7 +158,7 @@ TraceNext ==
                              ELSE (q \in DOMAIN resumedOver /\ resumedOver[q])]
         /\ viol' = viol \cup {V(n, e) : n \in StepViol(e, Q')}
 
-TraceSpec == TraceInit /\ [][TraceNext]_<<l, viol, Q, now, cfg, lastAttempt, startedEv, finishedEv, connEver, lostRunning, resumedOver, alive>>
+TraceSpec == TraceInit /\ [][TraceNext]_<<l, viol, Q, now, cfg, lastAttempt, startedEv, finishedEv, connEver, lostRunning, resumedOver, knownRes, alive>>
 TraceAccepted ==
   LET d == TLCGet("stats").diameter IN
   /\ PrintT(<<"VERDICT", ToJson([lines |-> Len(Rec), diameter |-> d])>>)
